@@ -39,4 +39,23 @@ int r14_4_partial_reset(z_stream& strm)
     return deflateResetKeep(&strm);
 }
 
+// R06.9 lossy-state: an argument remembered in object state through a conversion that drops its upper bits
+struct r06_9_state {
+    uint32_t last = 0;
+    uint64_t wide = 0;
+    void remember(uint64_t v) { last = v; }
+    void remember_wide(uint64_t v) { wide = v; }
+};
+
+// R05.5 window-derived state: a memo keyed by a position in the buffer window that survives the refill of that window
+struct r05_5_decoder {
+    unsigned char m_buffer[8];
+    unsigned char* m_p;
+    unsigned char* m_end;
+    const unsigned char* m_peek_pos;
+    int m_peek_type;
+    void read_to_buffer() { if (m_p == m_end) { m_p = m_buffer; m_end = m_buffer + 8; } }
+    int peek_type() { read_to_buffer(); if (m_p != m_peek_pos) { m_peek_pos = m_p; m_peek_type = m_p[0]; } return m_peek_type; }
+};
+
 }
